@@ -157,8 +157,13 @@ def run_case(case):
         return builder_replay(case)
     if "history" in case:
         return builder_replay({"history": case["history"]})
+    b_unobserved = C.save(build_case(case))
     p = build_case(case)
-    return roundtrip(p, case, case["kind"], case_key(case))[0]
+    vs, b = roundtrip(p, case, case["kind"], case_key(case))
+    if b and b_unobserved != b:
+        vs = vs + [C.viol("file-depends-on-whether-the-object-was-read-first", dict(case_key(case), part=case["kind"]),
+                          {"lens": [len(b_unobserved), len(b)]}, case)]
+    return vs
 
 
 def case_key(case):
@@ -185,7 +190,8 @@ def pattern_cases(thorough):
     for n in range(0, 4):
         for combo in itertools.product(range(3), repeat=n):
             cases.append({"kind": "patterns", "slots": [alphabet[i] for i in combo]})
-    shapes = [(t, l) for t in (1, 2, 3) for l in (1, 2, 3)] + [(4, 32), (32, 1), (1, 64)]
+    # ... up to images of exactly 64 KiB and a little more (32 x 256 cells x 8 bytes = 65536)
+    shapes = [(t, l) for t in (1, 2, 3) for l in (1, 2, 3)] + [(4, 32), (32, 1), (1, 64), (32, 255), (32, 256), (32, 257)]
     if thorough:
         shapes += [(t, l) for t in (4, 5) for l in (4, 5)] + [(32, 32)]
     for t, l in shapes:
@@ -276,8 +282,12 @@ def _task(t):
     if kind == "cases":
         for case in t[1]:
             try:
+                b_unobserved = C.save(build_case(case))       # a twin saved without being read by the harness first
                 p = build_case(case)
                 vs, b = roundtrip(p, case, case["kind"], case_key(case))
+                if b and b_unobserved != b:
+                    vs = vs + [C.viol("file-depends-on-whether-the-object-was-read-first", dict(case_key(case), part=case["kind"]),
+                                      {"lens": [len(b_unobserved), len(b)], "first_difference": C.first_byte_diff(b_unobserved, b)}, case)]
             except Exception as e:
                 vs, b = [C.viol("api-rejects-in-domain-input", dict(case_key(case), part=case["kind"], exc=type(e).__name__),
                                 {"error": repr(e)}, case)], b""
